@@ -93,7 +93,7 @@ fn gen_q(rng: &mut Rng, g: &GenCfg, items: &[Ent]) -> QSpec {
     QSpec {
         d: rng.below(g.docs as u64) as u8,
         latest: rng.chance(1, 3),
-        author: if rng.chance(1, 2) { None } else { Some(rng.below((g.authors as u64 + 1).min(crate::world::N_AUTHORS as u64)) as u8) },
+        author: if rng.chance(1, 2) { None } else { Some(rng.below((g.authors as u64 + 1).min(crate::world::N_AUTHORS_ALL as u64)) as u8) },
         kf: gen_kf(rng, items),
         by_key: rng.chance(1, 2),
         desc: rng.chance(1, 2),
@@ -144,7 +144,7 @@ impl Scenario for QueryScen {
         if self.large {
             return gen_large(rng, tier);
         }
-        let g = GenCfg { docs: *rng.pick(&[1u8, 2, 2, 3, 4]), authors: rng.range(1, 4) as u8, max_key_len: 3, ts_values: 5, marker_pct: 25, contents: 3 };
+        let g = GenCfg { docs: *rng.pick(&[1u8, 2, 2, 3, 4]), authors: crate::world::gen_author_count(rng, 4), max_key_len: 3, ts_values: 5, marker_pct: 25, contents: 3 };
         let n = rng.urange(1, tier.pick(12, 20));
         let items: Vec<Ent> = (0..n).map(|_| gen_ent(rng, &g)).collect();
         let backend = match rng.below(10) {
